@@ -115,6 +115,7 @@ class En:
     flags: bool = False
     explicit_values: bool = True      # emit as map symbol: value (else as list, values must be the defaults)
     comment: Optional[str] = None
+    base_alias: Optional[str] = None  # name of an alias of `base` to spell as the base type (base must be its target primitive)
 
     @property
     def base_prim(self):
